@@ -14,7 +14,7 @@ import json, os, random
 from vlib import Infra
 
 ALPHA = [0x00, 0x01, 0x7f, 0x80, 0x81, 0x82, 0xb7, 0xb8, 0xb9, 0xbf, 0xc0, 0xc1, 0xc2, 0xf7, 0xf8, 0xff]
-SCALARS = ["u8", "u16", "u32", "u64", "big", "bool", "bytes", "string", "arr1", "arr2", "arr20", "raw", "iface"]
+SCALARS = ["uint", "bigv", "u8", "u16", "u32", "u64", "big", "bool", "bytes", "string", "arr1", "arr2", "arr20", "raw", "iface"]
 STRUCTS = ["Inner", "Nested", "OptS", "OptP", "TailS", "NilS", "NilX", "PtrS", "Rows", "ArrU"]
 # structs with rlp:"-" / unexported fields before, between and after optional / tail / nil-tagged fields, an embedded struct and
 # a pointer to a struct with optional fields inside, structs whose only codec field is optional
@@ -214,7 +214,7 @@ def run(c):
                    "tx", "account", "slim", "log"]
         mut_base = ["receipt", "sreceipt", "header"]
     else:
-        mut_all = ["u64", "big", "bool", "bytes", "arr1", "arr2", "Inner", "OptS", "NilX"]
+        mut_all = ["uint", "bigv", "u8", "u16", "u32", "u64", "big", "bool", "bytes", "arr1", "arr2", "Inner", "OptS", "NilX"]
         mut_base = ["Nested", "OptP", "TailS", "NilS", "PtrS", "Rows", "ArrU", "tx", "account", "log"]
     run_model(c, "typed", "MC_RLPTyped",
               {"Names": sset(SCALARS + STRUCTS + IGNORED + PTR_SMALL + PTR_BIG + SLICES + CHAIN),
